@@ -193,6 +193,9 @@ func c17Probe(ctx *core.Ctx, ti int, t *rt.Table, router string, twin, filtered 
 			}
 			var probes []probe
 			hdr := map[string]string{}
+			if rr.Chance(1, 3) {
+				hdr["Origin"] = "http://example.com" // the OPTIONS filter must leave every other method untouched, headers included
+			}
 			for _, m := range append(append([]string{}, universe...), "OPTIONS", "FOO") {
 				req := rt.Req{Method: m, Path: u, Hdr: hdr}
 				if m == "POST" || m == "PUT" || m == "PATCH" {
@@ -214,8 +217,8 @@ func c17Probe(ctx *core.Ctx, ti int, t *rt.Table, router string, twin, filtered 
 				if m != "OPTIONS" {
 					of := rt.Run(filtered, rt.Dispatch, &req)
 					ctx.Eval(1)
-					if of.Sig() != o.Sig() {
-						ctx.Violation(ti, "c17:filter-touches-"+router, fmt.Sprintf("%s %q: %s with OPTIONSFilter, %s without", m, u, of.Sig(), o.Sig()),
+					if fullSig(of) != fullSig(o) {
+						ctx.Violation(ti, "c17:filter-touches-"+router, fmt.Sprintf("%s %q: %s with OPTIONSFilter, %s without", m, u, fullSig(of), fullSig(o)),
 							caseDoc{Router: router, Entry: rt.Dispatch, Table: t, Req: req, Obs: of, Want: o.Sig()})
 					}
 				}
